@@ -89,6 +89,11 @@ def run_variant(v, repo):
             if r.returncode == 0:
                 return v, "FAIL", f"expected a non-zero exit (violation or undecided) on a breaking variant, got 0\n{out[-1500:]}"
             return v, "PASS", ""
+        if exp == "undecided":
+            # a variant whose behaviour the rules cannot settle (it may well be behaviour-preserving): never a VIOLATION, never a pass
+            if r.returncode != 2 or "VIOLATION property=" in out:
+                return v, "FAIL", f"expected exit 2 (UNDECIDED) and no VIOLATION line, got exit {r.returncode}\n{out[-1500:]}"
+            return v, "PASS", ""
         if exp == "fixed":
             if r.returncode != 0:
                 return v, "FAIL", f"expected exit 0 on repaired variant, got {r.returncode}\n{out[-1500:]}"
